@@ -245,4 +245,8 @@ example :
     = members .deb 999999 1700000000 [ { dst := b!"/usr/", type := T.implicitDir, info := some { mode := 0o755, mtime := 1700000000 } },
       { src := b!"/s", dst := b!"/usr/x", type := T.file, info := some { mode := 0o644, mtime := 1600000000, size := 3 } } ] := by decide
 
+/-- the translator regenerated, on this run and from the working tree, every table this property is tied through
+    (when an extraction fails the reviewed table stands in so that the model still compiles, and this stops checking) -/
+theorem translator_tables_regenerated : Generated.extracted_G10Clock = true := by decide
+
 end Nfpm.Props.C07
